@@ -199,6 +199,9 @@ func (s *Servers) handle(w http.ResponseWriter, r *http.Request) {
 	s.log = append(s.log, Call{Seq: len(s.log), Path: r.URL.Path, Canon: canon, Echo: echo})
 	s.mu.Unlock()
 
+	if q := r.URL.Query(); q.Has("cc") || q.Has("expires") || q.Has("age") || q.Has("vary") {
+		s.cacheHeaders(w, r)
+	}
 	seg := strings.SplitN(strings.TrimPrefix(r.URL.Path, "/"), "/", 2)
 	switch seg[0] {
 	case "introspect":
@@ -337,7 +340,7 @@ func (s *Servers) token(w http.ResponseWriter, r *http.Request, body []byte) {
 
 // cacheHeaders sets response headers from query parameters:
 // cc=<Cache-Control value>, expires=<seconds relative to now | raw:<literal>>, date=<seconds relative to now | none>,
-// age=<seconds>.
+// age=<seconds>, vary=<header names>.
 func (s *Servers) cacheHeaders(w http.ResponseWriter, r *http.Request) {
 	q := r.URL.Query()
 	now := time.Now()
@@ -362,5 +365,8 @@ func (s *Servers) cacheHeaders(w http.ResponseWriter, r *http.Request) {
 	}
 	if v := q.Get("age"); v != "" {
 		w.Header().Set("Age", v)
+	}
+	if v := q.Get("vary"); v != "" {
+		w.Header().Set("Vary", v)
 	}
 }
